@@ -84,10 +84,13 @@ def main():
     def compile_one(src, opts, use_pre=False):
         b = io.StringIO()
         r = None
+        seen = None
         if "$obj" in opts:
             o = optobjs[opts["$obj"]]
             o.update(opts.get("$set", {}))
             opts = o
+            # what the dictionary holds when it is handed over (a compiler may have changed it earlier)
+            seen = {k: v for k, v in o.items() if isinstance(v, (bool, int, float, str, type(None)))}
         elif "$literal_fresh" in opts:
             opts = dict(opts["$literal_fresh"])  # a brand-new dictionary with exactly these keys
         else:
@@ -97,13 +100,13 @@ def main():
                 comp = pre.pop(0) if (use_pre and pre) else Compiler.Compiler()
                 r = comp.Compile(src, opts)
             except SystemExit:
-                return {"o": "EXIT"}, None
+                return {"o": "EXIT", "opts_seen": seen}, None
             except Exception as e:
-                return {"o": "EXC:" + type(e).__name__}, None
+                return {"o": "EXC:" + type(e).__name__, "opts_seen": seen}, None
         if r is None:
-            return {"o": "REJECT"}, None
+            return {"o": "REJECT", "opts_seen": seen}, None
         text = listing(r.IRModule)
-        ob = {"o": "ok", "ir": hashlib.sha256(text.encode()).hexdigest()[:16], "wasm": None}
+        ob = {"o": "ok", "ir": hashlib.sha256(text.encode()).hexdigest()[:16], "wasm": None, "opts_seen": seen}
         if plan.get("texts"):
             ob["text"] = text
         if r.WasmModule is not None:
